@@ -19,6 +19,7 @@ func init() {
 		&Rule{ID: "EX-STRINGS", Doc: "string, regex, length and set operators call the library function of their own meaning with (left, right) in the specified order", Run: ruleEXStrings, Min: 12},
 		&Rule{ID: "EX-PURE", Doc: "operators do not write through their operands (terms are shared by reference between worlds)", Run: ruleEXPure, Min: 20},
 		&Rule{ID: "EX-SETINCL", Doc: "set inclusion (Contains with a set argument) is 'every right element, examined afresh, has an Equal left element'", Run: ruleEXSetIncl, Min: 3},
+		&Rule{ID: "EX-SETALG", Doc: "set equality is inclusion in both directions, union and intersection add an element only if the result does not hold it yet, and the length of a set is not the length of its representation: no result depends on a repeated element", Run: ruleEXSetAlg, Min: 5},
 		&Rule{ID: "FX-BIND", Doc: "a rule variable is bound only by MatchedVariables.Insert (first binding under 'unbound', otherwise the verdict is Equal with the existing binding); nothing else writes a binding map except Clone and the nil initialisation", Run: ruleFXBind, Min: 3},
 		&Rule{ID: "EX-ARITY", Doc: "per op kind, every way through one step of Evaluate pops the operator's operands (value 0, unary 1, binary 2: right first, then left), evaluates that very op on them and pushes its result", Run: ruleEXArity, Min: 3},
 		&Rule{ID: "EX-STACK", Doc: "Evaluate tests every Push/Pop error and succeeds only with exactly one value left", Run: ruleEXStack, Min: 8},
@@ -1007,6 +1008,13 @@ func ruleEXStrings(p *Prog, r *Reporter) {
 		v, sy := ev.Params[1].Name(), ev.Params[2].Name()
 		want := []string{"len(datalog.SymbolTable.Str(" + sy + ", " + v + ".(datalog.String)))", "len(" + v + ".(datalog.Bytes))", "len(" + v + ".(datalog.Set))"}
 		got := successValues(p, ev)
+		for i, g := range got {
+			// the number of distinct elements, computed by a method of the set
+			if g == "datalog.Set.Len("+v+".(datalog.Set))" {
+				got[i] = "len(" + v + ".(datalog.Set))"
+			}
+		}
+		sort.Strings(got)
 		sort.Strings(want)
 		r.Check(strings.Join(got, "|") == strings.Join(want, "|"), p.Pos(ev.Pos()), p.FuncName(ev), "length clauses", "length of the string / byte array / set itself", fmt.Sprintf("Length returns %v, expected %v", got, want))
 	} else {
@@ -1052,22 +1060,12 @@ func (p *Prog) checkSetAlgebra(r *Reporter, st *types.Named) {
 		okHas = t && f && len(returnsOf(has)) == 2
 	}
 	r.Check(okHas, p.Pos(has.Pos()), p.FuncName(has), "membership", "true iff some element (full range) is Equal to the argument", "Set."+hasName+" is not 'exists an element Equal to the argument over the full range'")
-	for _, m := range []struct {
-		name      string
-		over      int // which parameter is ranged over
-		testOn    int // receiver of has()
-		keepIfHas bool
-		seedAll   bool // result starts with all of s
-	}{{"Intersect", 0, 1, true, false}, {"Union", 1, 0, false, true}} {
-		fn := p.method(st, m.name)
-		if fn == nil {
-			r.Dunno("?", "datalog.Set."+m.name, "method", "not found")
-			continue
-		}
+	// Intersect: exactly the elements of the receiver that the argument holds
+	if fn := p.method(st, "Intersect"); fn != nil {
 		ok := false
-		why := "no full-range loop over the expected operand"
+		why := "no full-range loop over the receiver that keeps the elements the argument holds"
 		for _, rl := range rangeLoops(fn) {
-			if rl.seq != ssa.Value(fn.Params[m.over]) {
+			if rl.seq != ssa.Value(fn.Params[0]) {
 				continue
 			}
 			for b := range rl.body {
@@ -1080,34 +1078,94 @@ func (p *Prog) checkSetAlgebra(r *Reporter, st *types.Named) {
 					if !one || !rl.isElem(elem) {
 						continue
 					}
+					inOther := false
+					bad := false
 					for _, g := range guardsOf(b) {
 						c, isCall := g.cond.(*ssa.Call)
-						if !isCall || !isCallTo(&c.Call, "datalog.Set.has") {
+						if !isCall || !isCallTo(&c.Call, "datalog.Set.has") || !rl.isElem(c.Call.Args[1]) {
 							continue
 						}
-						if c.Call.Args[0] == ssa.Value(fn.Params[m.testOn]) && rl.isElem(c.Call.Args[1]) && g.val == m.keepIfHas {
-							ok = true
-						} else {
-							why = "elements are kept under the wrong membership test"
+						switch {
+						case c.Call.Args[0] == ssa.Value(fn.Params[1]) && g.val:
+							inOther = true
+						case c.Call.Args[0] == ssa.Value(fn.Params[1]) && !g.val:
+							bad = true
+						}
+					}
+					if inOther && !bad {
+						ok = true
+					} else {
+						why = "elements are kept under the wrong membership test"
+					}
+				}
+			}
+		}
+		r.Check(ok, p.Pos(fn.Pos()), p.FuncName(fn), "set intersect", "elements selected by the specified membership test over the full range", "Set.Intersect: "+why)
+	} else {
+		r.Dunno("?", "datalog.Set.Intersect", "method", "not found")
+	}
+	// Union: every element of both operands; the only reason not to add one is that it is already there
+	if fn := p.method(st, "Union"); fn != nil {
+		covered := map[int]bool{}
+		why := ""
+		for _, c := range callsIn(fn) {
+			if cv, isC := c.(*ssa.Call); isC {
+				if bi, isB := cv.Call.Value.(*ssa.Builtin); isB && bi.Name() == "append" && len(cv.Call.Args) == 2 {
+					for pi := 0; pi < 2; pi++ {
+						if unwrap(cv.Call.Args[1]) == ssa.Value(fn.Params[pi]) {
+							covered[pi] = true // whole operand appended
 						}
 					}
 				}
 			}
 		}
-		if ok && m.seedAll {
-			seeded := false
-			for _, c := range callsIn(fn) {
-				if cv, isC := c.(*ssa.Call); isC {
-					if bi, isB := cv.Call.Value.(*ssa.Builtin); isB && bi.Name() == "append" && len(cv.Call.Args) == 2 && unwrap(cv.Call.Args[1]) == ssa.Value(fn.Params[0]) {
-						seeded = true
+		for _, rl := range rangeLoops(fn) {
+			for pi := 0; pi < 2; pi++ {
+				if rl.seq != ssa.Value(fn.Params[pi]) {
+					continue
+				}
+				for b := range rl.body {
+					for _, in := range b.Instrs {
+						call, isC := in.(*ssa.Call)
+						if !isC {
+							continue
+						}
+						acc, elem, one := singleAppend(call)
+						if !one || !rl.isElem(elem) {
+							continue
+						}
+						okGuards := true
+						for _, g := range guardsOf(b) {
+							isLoopCond := false
+							for _, l2 := range rangeLoops(fn) {
+								if hi := blockIf(l2.header); hi != nil && g.cond == hi.Cond {
+									isLoopCond = true // "still elements left" / "previous loop finished"
+								}
+							}
+							if isLoopCond {
+								continue
+							}
+							c, isCall := g.cond.(*ssa.Call)
+							if isCall && isCallTo(&c.Call, "datalog.Set.has") && rl.isElem(c.Call.Args[1]) && !g.val && (c.Call.Args[0] == acc || c.Call.Args[0] == ssa.Value(fn.Params[0])) {
+								continue // skipped only because the result (or the receiver it starts from) already holds it
+							}
+							okGuards = false
+						}
+						if okGuards {
+							covered[pi] = true
+						} else {
+							why = "an element of an operand can be left out for a reason other than being in the result already"
+						}
 					}
 				}
 			}
-			if !seeded {
-				ok, why = false, "the union does not start with all elements of the receiver"
-			}
 		}
-		r.Check(ok, p.Pos(fn.Pos()), p.FuncName(fn), "set "+strings.ToLower(m.name), "elements selected by the specified membership test over the full range", "Set."+m.name+": "+why)
+		if why == "" && !(covered[0] && covered[1]) {
+			why = "not every element of both operands is added to the result"
+		}
+		r.Check(covered[0] && covered[1] && why == "", p.Pos(fn.Pos()), p.FuncName(fn), "set union", "every element of both operands, each added unless the result already holds it", "Set.Union: "+why)
+	} else {
+		r.Dunno("?", "datalog.Set.Union", "method", "not found")
 	}
 }
 
@@ -1454,4 +1512,140 @@ func ruleFXBind(p *Prog, r *Reporter) {
 		}
 		r.Check(ok, p.instrPos(ret), p.FuncName(ins), "verdict", "true after the first binding, otherwise Equal with the existing binding", why)
 	}
+}
+
+// ---- EX-SETALG: representation independence of the set operations
+
+func ruleEXSetAlg(p *Prog, r *Reporter) {
+	globalP = p
+	st := p.NamedType("datalog", "Set")
+	if st == nil {
+		r.Dunno("?", "datalog.Set", "type", "not found")
+		return
+	}
+	isHas := func(c *ssa.Call) bool { return isCallTo(&c.Call, "datalog.Set.has") }
+	// membership loops of fn: full-range loop over `seq` whose body tests has(other, element)
+	type incl struct {
+		rl    *rangeLoop
+		other ssa.Value
+		call  *ssa.Call
+	}
+	inclusions := func(fn *ssa.Function) []incl {
+		var out []incl
+		for _, rl := range rangeLoops(fn) {
+			for b := range rl.body {
+				for _, in := range b.Instrs {
+					if c, ok := in.(*ssa.Call); ok && isHas(c) && len(c.Call.Args) == 2 && rl.isElem(c.Call.Args[1]) {
+						out = append(out, incl{rl, c.Call.Args[0], c})
+					}
+				}
+			}
+		}
+		return out
+	}
+	// Equal
+	if eq := p.method(st, "Equal"); eq != nil {
+		name := p.FuncName(eq)
+		recv := eq.Params[0]
+		incs := inclusions(eq)
+		var fwd, back *incl
+		for i := range incs {
+			in := &incs[i]
+			// leaving the loop body with has()==false must return false
+			okExit := false
+			if iff := blockIf(in.call.Block()); iff != nil {
+				cond, _, onF := condOf(iff)
+				if cond == ssa.Value(in.call) && onlyFalseReturn(onF) {
+					okExit = true
+				}
+			}
+			if !okExit {
+				continue
+			}
+			if in.rl.seq == ssa.Value(recv) && in.other != ssa.Value(recv) {
+				fwd = in
+			}
+			if in.other == ssa.Value(recv) && in.rl.seq != ssa.Value(recv) {
+				back = in
+			}
+		}
+		for _, ret := range returnsOf(eq) {
+			k, isK := retVal(ret, 0).(*ssa.Const)
+			if !isK || k.Value == nil || k.Value.String() != "true" {
+				if !isK {
+					r.Bad(p.instrPos(ret), name, "verdict", "set equality returns a computed value that is not one of the two inclusion tests")
+				}
+				continue
+			}
+			okBoth := fwd != nil && back != nil && (fwd.rl.doneBB == ret.Block() || fwd.rl.doneBB.Dominates(ret.Block())) && (back.rl.doneBB == ret.Block() || back.rl.doneBB.Dominates(ret.Block()))
+			r.Check(okBoth, p.instrPos(ret), name, "equal only after both inclusions", "true is returned after every element of each operand was found in the other", "set equality answers true after testing inclusion in one direction only (plus a length comparison): with a repeated element [1,1]==[1,2] holds while [1,2]==[1,1] does not, so fact de-duplication, matching and unification depend on the order of operands")
+		}
+	} else {
+		r.Dunno("?", "datalog.Set.Equal", "method", "not found")
+	}
+	// Union / Intersect: an element is appended only if the result does not hold it yet
+	for _, mn := range []string{"Union", "Intersect"} {
+		fn := p.method(st, mn)
+		if fn == nil {
+			r.Dunno("?", "datalog.Set."+mn, "method", "not found")
+			continue
+		}
+		name := p.FuncName(fn)
+		n := 0
+		for _, c := range callsIn(fn) {
+			cv, ok := c.(*ssa.Call)
+			if !ok {
+				continue
+			}
+			bi, isB := cv.Call.Value.(*ssa.Builtin)
+			if !isB || bi.Name() != "append" {
+				continue
+			}
+			n++
+			acc := cv.Call.Args[0]
+			_, elem, one := singleAppend(cv)
+			if !one {
+				r.Bad(p.instrPos(cv), name, "bulk append", "a whole operand is appended to the result without looking for repeated elements")
+				continue
+			}
+			okG := false
+			for _, g := range guardsOf(cv.Block()) {
+				if hc, isC := g.cond.(*ssa.Call); isC && isHas(hc) && !g.val && hc.Call.Args[0] == acc && sameValue(p, hc.Call.Args[1], elem) {
+					okG = true
+				}
+			}
+			r.Check(okG, p.instrPos(cv), name, "append only new elements", "appended under !result.has(element)", "an element is added to the result without testing that the result does not hold it yet: the result of "+mn+" carries repeated elements (its length and later comparisons are wrong)")
+		}
+		if n == 0 {
+			r.Bad(p.Pos(fn.Pos()), name, "result construction", "no append found")
+		}
+	}
+	// Length: not len() of the operand's representation
+	if ln := p.NamedType("datalog", "Length"); ln != nil {
+		if ev := p.method(ln, "Eval"); ev != nil {
+			bad := ""
+			for _, c := range callsIn(ev) {
+				cv, ok := c.(*ssa.Call)
+				if !ok {
+					continue
+				}
+				if bi, isB := cv.Call.Value.(*ssa.Builtin); isB && bi.Name() == "len" && types.Identical(cv.Call.Args[0].Type(), st) {
+					if _, isAssert := unwrap(cv.Call.Args[0]).(*ssa.TypeAssert); isAssert {
+						bad = p.instrPos(cv)
+					}
+				}
+			}
+			r.Check(bad == "", p.Pos(ev.Pos()), p.FuncName(ev), "length of a set", "counts distinct elements (not the length of the slice that represents the set)", "the length of a set is the length of its representation ("+bad+"): a set with a repeated element is longer than the set it denotes")
+		}
+	}
+}
+
+// onlyFalseReturn: block b returns the constant false.
+func onlyFalseReturn(b *ssa.BasicBlock) bool {
+	ret := blockReturn(b)
+	if ret == nil || len(ret.Results) == 0 {
+		return false
+	}
+	k, ok := ret.Results[0].(*ssa.Const)
+	return ok && k.Value != nil && k.Value.String() == "false"
 }
